@@ -528,3 +528,98 @@ func init() {
 		return p
 	}
 }
+
+func init() {
+	// C10 promptness family: fault-free, latency and watch delay <= H/10, all assignments of
+	// priorities from {1,2,2,3,5} and takeover flags, all start orders with random gaps.
+	families["c10"] = func(r *Rng) *Plan {
+		p := &Plan{Judge: []string{"C10"}}
+		p.H = Pick(r, []time.Duration{100 * ms, 200 * ms, 500 * ms, 1 * sec, 2 * sec})
+		p.TTL = Pick(r, []time.Duration{3 * p.H, 4 * p.H, 5 * p.H, 10 * p.H})
+		n := 2 + r.Intn(4)
+		p.Insts = mkInsts(r, n, 1)
+		prios := []int{1, 2, 2, 3, 5}
+		for i := range p.Insts {
+			c := &p.Insts[i]
+			c.Prio = Pick(r, prios)
+			c.Takeover = r.Bool(0.7)
+			c.V = Pick(r, []time.Duration{0, p.H, 3 * p.H})
+			c.PromoteMode = "return"
+			p.Actions = append(p.Actions, Action{At: r.Dur(0, 4*p.H), Kind: AStart, Inst: i})
+		}
+		hi := p.H/20 - 1
+		p.Store = StoreCfg{Req: [2]Dur{0, hi}, Resp: [2]Dur{0, hi}, WatchDelay: [2]Dur{0, p.H / 10}}
+		p.Until = 4*p.H + time.Duration(n)*4*p.H + 8*p.H + 2*sec
+		p.Sched = SchedCfg{YieldProb: Pick(r, []float64{0, 0.2})}
+		return p
+	}
+}
+
+func init() {
+	// C06: the leader is removed at an arbitrary step; any subset of watch events is dropped
+	// or delayed; transient failures of Watch/Get/Create on the candidates, then recovery.
+	families["c06"] = func(r *Rng) *Plan {
+		p := &Plan{Judge: []string{"C06"}}
+		baseTiming(r, p, hLattice[:6])
+		n := 2 + r.Intn(4)
+		p.Insts = mkInsts(r, n, 1)
+		for i := range p.Insts {
+			p.Insts[i].V = Pick(r, []time.Duration{0, p.H, 3 * p.H})
+			p.Actions = append(p.Actions, Action{At: time.Duration(i) * r.Dur(1*ms, 30*ms), Kind: AStart, Inst: i})
+		}
+		p.Store = healthyStore(r, Pick(r, []time.Duration{p.H / 2, 100 * ms, 20 * ms}))
+		// instance 0 starts first and normally leads; remove it at tv
+		tv := r.Dur(p.H, 10*p.H) + 700*ms
+		switch r.Intn(6) {
+		case 0:
+			p.Actions = append(p.Actions, Action{At: tv, Kind: AStopCtx, Inst: 0, DeleteKey: true, WaitForDemote: r.Bool(0.5)})
+		case 1:
+			p.Actions = append(p.Actions, Action{At: tv, Kind: ACrash, Inst: 0})
+		case 2:
+			p.Faults = append(p.Faults, Fault{Kind: FPartition, Inst: 0, From: tv})
+		case 3:
+			p.Actions = append(p.Actions, Action{At: tv, Kind: AOutDelete, Key: "g1"})
+		case 4:
+			p.Actions = append(p.Actions, Action{At: tv, Kind: AExpire, Key: "g1"})
+		default:
+			p.Actions = append(p.Actions, Action{At: tv, Kind: AStop, Inst: 0})
+		}
+		end := tv + p.TTL + 3*sec
+		// watch delivery faults on the candidates: everything, or a random subset
+		switch r.Intn(4) {
+		case 0:
+			p.Faults = append(p.Faults, Fault{Kind: FWatchDrop, Inst: -1, From: 0, To: end + 10*sec})
+		case 1:
+			p.Faults = append(p.Faults, Fault{Kind: FWatchDrop, Inst: -1, From: tv - p.H, To: end, Prob: 0.5})
+		case 2:
+			p.Faults = append(p.Faults, Fault{Kind: FWatchHold, Inst: 1 + r.Intn(n-1), From: tv - p.H, To: end})
+		}
+		// transient store failures on candidates before recovery
+		if r.Bool(0.5) {
+			c := 1 + r.Intn(n-1)
+			from := r.Dur(0, tv+p.TTL)
+			f := Fault{Inst: c, From: from, To: from + r.Dur(p.H, p.TTL)}
+			switch r.Intn(5) {
+			case 0:
+				f.Kind, f.Err = FWatchFail, "timeout"
+				f.From = 0 // the first Watch call of the candidate
+			case 1:
+				f.Kind, f.Op, f.Err = FError, "get", Pick(r, []string{"timeout", "noresponders"})
+			case 2:
+				f.Kind, f.Op = FHang, "create"
+			case 3:
+				f.Kind = FPartition
+			default:
+				f.Kind = FWatchClose
+			}
+			p.Faults = append(p.Faults, f)
+			if f.To > end {
+				end = f.To
+			}
+		}
+		p.Until = end + 6*sec
+		p.Tail = p.TTL + 2*sec
+		p.Sched = SchedCfg{YieldProb: Pick(r, []float64{0, 0.2}), StallMax: 0}
+		return p
+	}
+}
